@@ -578,3 +578,155 @@ def _sxs(t):
     if k == "adt":
         return "%s::%s{..}" % (t[1].split("::")[-1], t[2])
     return str(t)
+
+
+# ---- structured statements --------------------------------------------------------
+
+def for_loop_parts(m):
+    """if `m` is a desugared `for pat in iter { body }` return (iter_expr, pat, body_expr)"""
+    if m.get("k") != "Match" or m.get("source") != "ForLoopDesugar":
+        return None
+    sc = m["scrut"]
+    if sc.get("k") != "Call" or not canon(callee_of(sc)).endswith("into_iter"):
+        return None
+    it = sc["args"][0]
+    arm = m["arms"][0]
+    lp = arm["body"]
+    if lp.get("k") != "Loop":
+        return None
+    inner = None
+    for n in exprs(lp["body"], "Match"):
+        if n.get("source") == "ForLoopDesugar":
+            inner = n
+            break
+    if inner is None:
+        return None
+    for a in inner["arms"]:
+        p = a["pat"]
+        if p.get("k") == "Variant" and p.get("variant") == "Some":
+            return (it, p["fields"][0]["pat"], a["body"])
+    return None
+
+
+def pat_names(p):
+    out = []
+    for n in walk(p):
+        if n.get("k") == "Bind":
+            out.append(n["name"])
+    return out
+
+
+def stmts(e, lets=None):
+    """flatten an expression used in statement position into a list of simplified statements:
+    ('let', name, is_mut, sx) | ('for', [names], sx_iter, [stmts], span) | ('assign', sx_l, sx_r, span)
+    | ('assignop', op, sx_l, sx_r, span) | ('if', sx_cond, [then], [else], span) | ('loop', [stmts], span)
+    | ('return', sx|None, span) | ('break',) | ('continue',) | ('match', sx_scrut, [(pat, [stmts])], span)
+    | ('expr', sx, span)"""
+    lets = lets if lets is not None else {}
+    k = e["k"]
+    sp = span_str(e["span"]) if "span" in e else "?"
+    if k == "Block":
+        out = []
+        for st in e.get("stmts", []):
+            if st["k"] == "Let":
+                p = st["pat"]
+                if p.get("k") == "Bind" and "sub" not in p and "init" in st:
+                    mut = is_mut_binding(p)
+                    if not mut and "else" not in st:
+                        lets[p["name"]] = st["init"]
+                    out.append(("let", p["name"], mut, sx(st["init"], lets), span_str(st["span"])))
+                else:
+                    init = sx(st["init"], lets) if "init" in st else None
+                    out.append(("letpat", pat_names(p), init, span_str(st["span"]), p))
+                    if "else" in st:
+                        for x in st["else"]:
+                            out.append(("letelse", stmts(x, lets)))
+            else:
+                out.extend(stmts(st["expr"], lets))
+        if "expr" in e:
+            out.extend(stmts(e["expr"], lets))
+        return out
+    if k == "Match":
+        fl = for_loop_parts(e)
+        if fl:
+            it, pat, body = fl
+            return [("for", pat_names(pat), sx(it, lets), stmts(body, lets), sp)]
+        arms = []
+        for a in e["arms"]:
+            arms.append((a["pat"], stmts(a["body"], lets), sx(a["guard"], lets) if "guard" in a else None))
+        return [("match", sx(e["scrut"], lets), arms, sp)]
+    if k == "If":
+        return [("if", sx(e["cond"], lets) if e["cond"]["k"] != "Let" else ("iflet", sx(e["cond"]["expr"], lets), tuple(pat_names(e["cond"]["pat"])), _pat_desc(e["cond"]["pat"])),
+                 stmts(e["then"], lets), stmts(e["else"], lets) if "else" in e else [], sp)]
+    if k == "Loop":
+        return [("loop", stmts(e["body"], lets), sp)]
+    if k == "Assign":
+        return [("assign", sx(e["lhs"], lets), sx(e["rhs"], lets), sp)]
+    if k == "AssignOp":
+        return [("assignop", e["op"], sx(e["lhs"], lets), sx(e["rhs"], lets), sp)]
+    if k == "Return":
+        return [("return", sx(e["value"], lets) if "value" in e else None, sp)]
+    if k == "Break":
+        return [("break", sp)]
+    if k == "Continue":
+        return [("continue", sp)]
+    return [("expr", sx(e, lets), sp)]
+
+
+def _pat_desc(p):
+    k = p.get("k")
+    if k == "Variant":
+        return p["variant"]
+    if k == "Deref":
+        return _pat_desc(p["sub"])
+    return k
+
+
+def stmt_walk(sts):
+    """all statements, depth first"""
+    for s in sts:
+        yield s
+        if s[0] == "for":
+            yield from stmt_walk(s[3])
+        elif s[0] == "if":
+            yield from stmt_walk(s[2])
+            yield from stmt_walk(s[3])
+        elif s[0] == "loop":
+            yield from stmt_walk(s[1])
+        elif s[0] == "match":
+            for _p, body, _g in s[2]:
+                yield from stmt_walk(body)
+        elif s[0] == "letelse":
+            yield from stmt_walk(s[1])
+
+
+def stmt_exprs(s):
+    """sx expressions directly contained in a statement"""
+    k = s[0]
+    if k == "let":
+        return [s[3]]
+    if k == "letpat":
+        return [s[2]] if s[2] else []
+    if k == "for":
+        return [s[2]]
+    if k == "assign":
+        return [s[1], s[2]]
+    if k == "assignop":
+        return [s[2], s[3]]
+    if k == "if":
+        return [s[1]]
+    if k == "return":
+        return [s[1]] if s[1] else []
+    if k == "match":
+        return [s[1]]
+    if k == "expr":
+        return [s[1]]
+    return []
+
+
+def fn_stmts(facts, name):
+    b = facts.thir.get(name)
+    if b is None:
+        return None, None
+    lets = {}
+    return stmts(b["body"], lets), lets
